@@ -117,32 +117,35 @@ def runEffects (w : PyW) (self : Obj) : List Effect → PyW
     | none => runEffects w self es
     | some m => runEffects (w.setattr self attr m) self es
 
+/-- `parent_module.__path__` must exist (the parent is a package), else ModuleNotFoundError before any search -/
+def parentOk (w : PyW) (path : Dotted) : Bool :=
+  path.dropLast.isEmpty || (match w.modOf path.dropLast with | some po => w.isPkg po | none => false)
+
+/-- `parent_module = sys.modules[parent]` is fetched AGAIN after the load (CPython 3.12);
+    `setattr(parent_module, child, sys.modules[name])` -/
+def attach (w : PyW) (path : Dotted) : PyW :=
+  match (if path.dropLast.isEmpty then none else w.modOf path.dropLast), w.modOf path with
+  | some po, some m => w.setattr po (path.getLast?.getD []) m
+  | _, _ => w
+
+/-- `_load_unlocked(spec)`: create and register the module, run its body, un-register it if the body raises -/
+def loadFound (w : PyW) (path : Dotted) (s : ModSpec) : Bool × PyW :=
+  let a := w.alloc (.module path s.pkg)
+  let w2 := a.2.setMod path a.1
+  if s.raises == .early then (false, w2.delMod path)
+  else
+    let w4 := runEffects (runMembers w2 path a.1 s.members) a.1 s.effects
+    if s.raises == .late then (false, w4.delMod path) else (true, attach w4 path)
+
 /-- `_find_and_load_unlocked(name)` for a name that is not in sys.modules and whose parent is.
     `true` = loaded. -/
 def loadOne (w : PyW) (path : Dotted) : Bool × PyW :=
-  let parent := path.dropLast
-  let parentObj := if parent.isEmpty then none else w.modOf parent
-  -- `parent_module.__path__` must exist, else ModuleNotFoundError before any search
-  if !parent.isEmpty && !(match parentObj with | some po => w.isPkg po | none => false) then (false, w)
+  if !parentOk w path then (false, w)
   else
-    let w := w.emit (.find path)
-    match w.findSpec path with
-    | none => (false, w)
-    | some s =>
-      let a := w.alloc (.module path s.pkg)
-      let o := a.1
-      let w := a.2.setMod path o
-      if s.raises == .early then (false, w.delMod path)
-      else
-        let w := runMembers w path o s.members
-        let w := runEffects w o s.effects
-        if s.raises == .late then (false, w.delMod path)
-        else
-          -- `module = sys.modules[name]`; `parent_module = sys.modules[parent]` is fetched AGAIN after the
-          -- load (CPython 3.12); `setattr(parent_module, child, module)`
-          match (if parent.isEmpty then none else w.modOf parent), w.modOf path with
-          | some po, some m => (true, w.setattr po (path.getLast?.getD []) m)
-          | _, _ => (true, w)
+    let w1 := w.emit (.find path)
+    match w1.findSpec path with
+    | none => (false, w1)
+    | some s => loadFound w1 path s
 
 /-- `_gcd_import(name)`: load every prefix that is not yet in sys.modules, in order -/
 def importChainL (w : PyW) : List Dotted → Bool × PyW
